@@ -42,7 +42,9 @@ CHECKS["C04"] = dict(level="model_checking", ref="DESIGN.md §4 C04, §9",
     text="TLA+ spec Relations (request = table check, add, re-check; termination = table delete, drain+notify) model-checked exhaustively for 2-3 "
          "consumers x {link, monitor} x {with/without removal} x target kinds {pid, name, alias, event} x {Kill, UnregisterName}; an edge cover of each state graph is "
          "replayed on a real node (real LinkX/MonitorX/UnlinkX calls inside consumer callbacks racing a real Kill/UnregisterName) and every recorded execution is "
-         "validated by TLC: exactly one exit/down with the right target and reason for a relation that holds, none otherwise.",
+         "validated by TLC: exactly one exit/down with the right target and reason for a relation that holds, none otherwise. Sequential relation "
+         "histories (one consumer holding a link and a monitor, several targets, unlink / demonitor, then the fault; systematic and seeded random) are run on a real node and "
+         "judged by TLC with the reference RelH: one notice per relation held, each of its own kind.",
     note=RACE_NOTE, tech="TLA+ spec Relations + TLC; edge-cover plans replayed under the controlling scheduler; traces validated by TLC (Relations_Trace: Core conformance with drift detection, clauses over observations)")
 
 CHECKS["C06"] = dict(level="model_checking", ref="DESIGN.md §4 C06, §9",
@@ -61,7 +63,7 @@ CHECKS["C07"] = dict(level="model_checking", ref="DESIGN.md §4 C07, §9",
     text="TLA+ spec Call (fresh reference per call, buffered response channel, drop-and-retry on a foreign reference, timeouts, late / duplicate / third-party / "
          "misdirected replies) model-checked exhaustively for 1-2 callers x 2-4 calls; the variant with wrapping references must be refuted by TLC (non-vacuity). "
          "An edge cover of the state graphs is executed as histories on real callers and callees (timeouts scaled to 15 ms through a build-tag timer hook, replies sent "
-         "by the callee or a third process exactly when the history says) plus the reference wrap-around histories; TLC validates every recorded history: a call "
+         "by the callee or a third process exactly when the history says, every third one as an error reply) plus the reference wrap-around histories; TLC validates every recorded history: a call "
          "returns only the value produced for that very request, a request is presented once, a reply is consumed once.",
     note="Trusted: TLC; the harness orders replies (no controller needed: the property is about histories); Recv steps of the model are implicit in the code; "
          "channel capacity 10 in the code, 2-3 in the model; remote calls are covered by C12/C14.",
@@ -99,7 +101,7 @@ CHECKS["C19"] = dict(level="model_checking", ref="DESIGN.md §4 C19, §9",
          "full; AddWorkers / RemoveWorkers; Kill) used as sequential oracle: systematic and seeded random operation histories (sends, requests, holding workers inside "
          "their handler so that bounded mailboxes fill, releases, kills, add/remove) are executed on a real act.Pool with gated workers, every operation followed by "
          "quiescence, and TLC replays each recorded line on the model: per worker what it handled, holds and has queued, who is alive (ring keeps its size), and "
-         "which reply reached which caller.",
+         "which reply reached which caller. After AddWorkers the systematic histories fill every original worker so that the added ones must be reached.",
     note="Trusted: TLC; histories are sequential (quiescence after every operation), so concurrent dispatch races are outside this check; pool sizes 1-4, worker mailbox 0-3.",
     tech="TLA+ model Pool evaluated by TLC as oracle over recorded histories of a real pool (trace validation)")
 
@@ -107,7 +109,7 @@ CHECKS["C17"] = dict(level="model_checking", ref="DESIGN.md §4 C17, §9",
     text="TLA+ sequential reference AppContract (dependencies first, members in order, Start once, failed start leaves nothing running, mode rule Permanent / "
          "Transient / Temporary, Terminate once with the causing reason, back to loaded, stop reports success only when everything is down) used as oracle: systematic "
          "histories (every mode x 1-3 members x every member x every reason, a second member leaving its handler with its own reason while the application is already stopping, explicit start modes, failing k-th member, dependencies, stop / stop-force / unload / "
-         "restart) and seeded random ones are executed on a real node in a subprocess (a call that never returns is an observation) and TLC replays every recorded line.",
+         "restart, unload attempted while a parked member keeps a stop in progress) and seeded random ones are executed on a real node in a subprocess (a call that never returns is an observation) and TLC replays every recorded line.",
     note="Trusted: TLC; operations are sequential (quiescence after each): races between concurrent API calls and member deaths (App atomic-step model, DESIGN Appendix G) "
          "are not bound to the code yet; 1-4 members, one dependency.",
     tech="TLA+ reference AppContract evaluated by TLC as oracle over recorded histories of a real node (trace validation)")
@@ -140,7 +142,7 @@ CHECKS["C13"] = dict(level="model_checking", ref="DESIGN.md §4 C13, §9",
          "receiver's residue, one worker per queue, Join/remove of links) is model-checked exhaustively for small constants: PairFifo holds for non-zero residues "
          "on a stable pool and TLC produces the counterexamples for residue 0 and for a changing pool. The same configurations are driven on two real nodes "
          "through the delaying relay (streams of 50-1500 numbered messages per pair, several pairs at once, pool sizes 1-6, link-0 / rotating delays, links "
-         "joining during the stream, one link cut); spec/Net.tla judges every recorded arrival sequence (increasing, no duplicate, complete when nothing was cut).",
+         "joining during the stream, one link cut and traffic continuing after it was re-dialled, compressed and > 64 KiB messages interleaved with small ones); spec/Net.tla judges every recorded arrival sequence (increasing, no duplicate, complete when nothing was cut).",
     note="Trusted: TLC, the relay. The two model counterexamples are genuine defects of the code (known findings P11a, P11b, reproduced on the real nodes by every run); "
          "a reordering in any other configuration is a violation. Re-dial of a cut link is exercised but the window between loss and re-dial is not controlled.",
     tech="TLA+ model NetOrder model-checked by TLC; recorded per-pair arrival sequences of two real nodes behind a delaying relay validated by TLC against spec/Net.tla")
@@ -173,7 +175,7 @@ CHECKS["C15"] = dict(level="model_checking", ref="DESIGN.md §4 C15, §9",
 CHECKS["C10"] = dict(level="fault_enumeration", ref="DESIGN.md §4 C10, §9",
     text="TLA+ model TreeModel of an ownership tree (processes starting / running / dead, faults deferred while a child is being started, restarts, failing "
          "Init, the exit cascade) is model-checked: NoOrphanQ holds for the repaired design and TLC must find the orphan left by a failed Init in the former one. "
-         "Fault enumeration on real trees (application -> supervisors of every type and strategy -> pools, simple-one-for-one children, workers; 4-6 shapes): every "
+         "Fault enumeration on real trees (application -> supervisors of every type and strategy -> pools, simple-one-for-one children, workers, trapping processes outside any supervisor; 4-6 shapes): every "
          "process x kill / exit / crash / panic; a fault on any process while another one is inside its Init during a restart or during start-up, or inside "
          "Terminate during a shutdown (gates in the tree's behaviours); failing Init at start-up and during a restart; 2-3 faults in a row; application stop and "
          "node stop, also right after faults. spec/Tree.tla judges the state recorded at quiescence: nothing alive whose owner is gone, stop calls return, return "
@@ -189,19 +191,29 @@ CHECKS["C16"] = dict(level="exploration", ref="DESIGN.md §4 C16, §9",
          "spec/Hostile.tla: (a) after a genuine handshake a mutated frame (8 honest frame kinds x length field values, magic, version, 29 type bytes, truncation at every "
          "offset 8-59, body byte flips, compressed-envelope size / method, random frames, with and without a size limit) is injected into the live connection; the "
          "attacked node must not die, a request between two local processes and one over an unrelated connection must still be served, in bounded time and live-heap "
-         "growth; (b) the real decoder is fed with mutated encodings of a 20-value corpus (truncation, 0xff / 0x00 at every offset, type tags, duplicated tails): value or "
+         "growth, and after a complete well-framed injection the attacked connection itself either still carries honest messages or is closed (QueueNotStuck); (b) the real decoder is fed with mutated encodings of a 20-value corpus (truncation, 0xff / 0x00 at every offset, type tags, duplicated tails): value or "
          "error, no panic, no hang, allocation bounded by 64 x input + 8 MiB, and a decoded value re-encodes to bytes that decode to an equal value.",
     note="Trusted: TLC. 'All byte strings' is not enumerable: coverage is the mutation grammar (plus seeded random frames); the handshake reader is attacked in C15's "
          "replay / garbage / truncation cases. Open known finding P12b (declared unpacked size is allocated up front).",
     tech="TLA+ model Frame model-checked by TLC; mutated frames injected into a live connection and mutated encodings fed to the real decoder, observations validated by TLC against spec/Hostile.tla")
 
-NOT_YET = {
-    "C11": "the specification technique does not apply: C11 is a round-trip law of one pure function pair (edf.Encode / edf.Decode) over a value space - there is no state, "
-           "no interleaving and no history for a TLA+ model to explore, and transcribing the codec (about 2000 lines of reflection-driven case analysis) into TLA+ would "
-           "verify the transcription, not the code. DESIGN.md §5 and §9 say what a value-generating round-trip harness would look like and record the two defects found by "
-           "reading and probing (P13: strings of 65534 / 65535 bytes, error texts containing '%'); they are not claimed here. The hostile-input side of the decoder "
-           "(crash, hang, allocation, re-encode stability of what decodes) is covered by C16.",
+CHECKS["C11"] = dict(level="exploration", ref="DESIGN.md §4 C11, §9",
+    text="TLA+ model codec EDF of the wire format (folded type descriptors for unnamed composites, names or 3-byte cache ids for registered types, ids that share a "
+         "field with lengths - atom id > 255, type id > 4095, error id > 32767, 65535 = nil error -, nil markers, counts) over an abstract value grammar with boundary "
+         "classes; TLC checks the round-trip law and the exact set of refused values on the model for every case of a bounded universe x 5 cache configurations "
+         "(quick 2.7*10^5 states, thorough 3.7*10^6) and must find the counterexamples of the former string decoder (2 + l in 16 bits) and of the former error decoder "
+         "(text used as a format string). TLC writes the universe out; the harness builds every case as a real Go value (the 26 registered types of the specification "
+         "are derived by reflection from the harness's Go types), runs the real edf.Encode / edf.Decode under cache configurations built the way net/handshake builds "
+         "them, and spec/EDF_Trace.tla judges every observation: what the encoder accepts decodes to an equal value of the same type leaving no byte, also with "
+         "foreign bytes behind it and with warm caches, and a value without an encoding is refused. Seeded random cases nested to depth 4 are added (and checked "
+         "on the model too). The byte length of every real encoding is compared with the model's (reported as drift, not judged).",
+    note="Trusted: TLC. The value space is not enumerable: coverage is the grammar (boundary lengths 0/1/255/256, 65533..65536, 32767/32768, buffer growth points, extreme "
+         "numbers, NaN, signed zero, nil vs empty at every level, every registered shape, cached and uncached atoms / types / errors). Content of long strings is a fixed "
+         "pattern per fill class. Equality is lenient where Go's is not defined (NaN, time zones by offset, errors by text or identity). The caches are built in one process; "
+         "their negotiation over a connection is exercised by C12-C15.",
+    tech="TLA+ model codec EDF model-checked by TLC over a bounded universe; the TLC-enumerated universe replayed into the real encoder / decoder, observations validated by TLC against spec/EDF_Trace.tla")
 
+NOT_YET = {
 }
 
 
